@@ -475,6 +475,8 @@ class _Base(Prop):
                 r["gen"] = g
                 r.pop("_module", None)
             return recs
+        if g["kind"] == "scenario":
+            return scenario_record(g, H)
         if g["kind"] == "hist":
             rec = run_history(norm_tree(g["tree"]), g["hist"], H, g.get("seed", 0))
         elif g["kind"] == "expand":
@@ -485,6 +487,43 @@ class _Base(Prop):
             raise ValueError(g["kind"])
         rec["gen"] = g
         return rec
+
+
+def scenario_record(g, H):
+    """Directed scenarios for C09, each a boolean observation whose expected value is TRUE."""
+    name = g["name"]
+    obs = lambda nm, holds: {"k": "obs", "p": "C09", "name": nm, "holds": bool(holds), "gen": g}
+    dep = lambda n: H.HTMLDependency(n, "1.0", source={"href": "https://x/" + n}, script={"src": n + ".js"})
+    if name == "head_content":
+        # a tagifiable (and self-rendering) object handed to head_content(): HTMLDocument hoists it into <head>, where it
+        # must appear as its expansion, with the dependencies the expansion carries
+        Frag = tagfrag_class(H)
+        payload = ["in head <&>", H.tags.meta(name="k", content=g.get("v", "v")), dep("carried")][: 1 + g.get("n", 2)]
+        frag = Frag(H.TagList(*payload))
+        hc = H.head_content(frag)
+        expanded = H.HTMLDependency(hc.name, str(hc.version), head=H.TagList(*payload))
+        got = H.HTMLDocument(H.tags.div("c", hc, dep("other"))).render()
+        want = H.HTMLDocument(H.tags.div("c", expanded, dep("other"))).render()
+        return obs("HTMLDocumentRenderExpandsTheSameWay",
+                   got["html"] == want["html"] and [d.name for d in got["dependencies"]] == [d.name for d in want["dependencies"]])
+    if name == "per_instance":
+        # whether an object is tagifiable is a property of THAT object: an instance that got its tagify() per instance
+        # expands, whatever other instances of its class did before in this process
+        class Widget:
+            def __init__(self, label, tfy):
+                self.label = label
+                if tfy:
+                    self.tagify = lambda: H.TagList(H.tags.b(label), dep("w" + label))
+
+            def _repr_html_(self):
+                return "<i>static " + self.label + "</i>"
+        first = H.tags.div(Widget("a", g["first_tfy"])).render()
+        second = H.tags.div("x", Widget("b", not g["first_tfy"]), Widget("c", True)).render()
+        want_b = "<b>b</b>" if not g["first_tfy"] else "<i>static b</i>"
+        return obs("RenderProducesWhatTheExpandedTreeProduces",
+                   want_b in second["html"] and "<b>c</b>" in second["html"] and "wc" in [d.name for d in second["dependencies"]]
+                   and (("<b>a</b>" in first["html"]) == g["first_tfy"]))
+    raise ValueError(name)
 
 
 def eq_record(g, H):
@@ -696,6 +735,9 @@ class C09(_Base):
             plain_names(t)
             if rnd.random() < 0.3:
                 t = {"f": "L", "kids": t["kids"]}
+            if n < 12:
+                gens.append({"kind": "scenario", "name": "head_content", "n": n % 3, "v": "v%d" % n})
+                gens.append({"kind": "scenario", "name": "per_instance", "first_tfy": n % 2 == 0, "n": n})
             gens.append({"kind": "expand", "tree": t})
             gens.append({"kind": "hist", "tree": t, "seed": n, "hist": [
                 {"act": "ReadOnly", "i": 1, "op": "rawstring", "kind": "", "ord": 0},
